@@ -123,7 +123,10 @@ def rules_schema_writer(u, rep):
             if outcome_of(u, p)[0] != "ok":
                 continue
             ws = [(i, e) for i, e in enumerate(p.events) if e[0] == "W"]
-            ok = len(ws) == 1 and ws[0][1][2] == "B" and ws[0][1][1] == ("self",) and ws[0][1][4] == ("param", "value")
+            recv = ws[0][1][1] if ws else None
+            # through SchemaWriter's own write_all (a pure forward, checked below) or directly on the wrapped writer
+            recv_ok = recv == ("self",) or (isinstance(recv, tuple) and len(recv) > 1 and recv[0] == "field" and recv[1] == ("self",))
+            ok = len(ws) == 1 and ws[0][1][2] == "B" and recv_ok and ws[0][1][4] == ("param", "value")
             rep.oblige(ok)
             n += 1
             if not ok:
@@ -242,6 +245,12 @@ def rule_entry_points(u, rep):
                 rep.add("EXTRACT", "entry:" + b.d["name"], "cannot extract the stream term of Serialize::%s: %s" % (b.d["name"], ex), b.loc())
                 continue
             oks = [p for p in paths if p.outcome == "ok"]
+            # the entry points themselves never panic: whatever the writer does is reported through the Result
+            pans = [p for p in paths if p.outcome == "panic"]
+            rep.oblige(not pans)
+            if pans:
+                rep.add("ENTRY", "panic:" + b.d["name"], "Serialize::%s has a panicking path of its own (%s): a failing writer must be reported as an error, and the recording state after a failed write is not the one a successful run leaves"
+                        % (b.d["name"], str(getattr(pans[0], "panic_sp", None) or pans[0].value)[:120]), b.loc())
             for p in oks:
                 if p.problems:
                     rep.add("ENTRY", "problems:" + b.d["name"], "Serialize::%s: %s" % (b.d["name"], [str(x)[:100] for x in p.problems][:2]), b.loc())
